@@ -498,6 +498,28 @@ class Engine:
                 return to_bool(self.ev(node.args[0], st, guard)) == to_bool(self.ev(node.args[1], st, guard))
             if nm == "ite":
                 return self.ev_IfExp(ast.IfExp(node.args[0], node.args[1], node.args[2]), st, guard)
+            if nm == "choose" and self.spec_depth > 0:
+                lamn = node.args[0]
+                lo, hi = [to_z3(self.ev(a, st, guard)) for a in node.args[1:3]]
+                m = fresh("choice", I)
+                st_q, st_m = st.fork(), st.fork()
+                bv = z3.Int("c!q%d" % next(_fresh))
+                st_q.env[lamn.args.args[0].arg] = bv
+                st_m.env[lamn.args.args[0].arg] = m
+                ex = z3.Exists([bv], z3.And(lo <= bv, bv < hi, to_bool(self.ev(lamn.body, st_q, guard))))
+                st.pc.append(z3.Implies(ex, z3.And(lo <= m, m < hi, to_bool(self.ev(lamn.body, st_m, guard)))))
+                return m
+            if nm == "lam" and self.spec_depth > 0:
+                lamn = node.args[0]
+                bv = z3.Int("l!q%d" % next(_fresh))
+                st_q = st.fork()
+                st_q.env[lamn.args.args[0].arg] = bv
+                body = to_z3(self.ev(lamn.body, st_q, guard))
+                elem = "real" if z3.is_real(body) else ("bool" if z3.is_bool(body) else "int")
+                ref = self.new_array(st, "lam", elem, 1)
+                cellv = z3.Select(st.heap[ref.base].arr, bv)
+                st.pc.append(z3.ForAll([bv], cellv == body, patterns=[cellv]))
+                return ref
             if nm == "old":
                 if st.old is None:
                     raise ContractError("old() outside a postcondition")
@@ -647,6 +669,21 @@ class Engine:
         for cname, src in list(callee.ensures.items()) + list(callee.assumed.items()):
             fact = to_bool(self.evc(src, post, guard))
             st.pc.append(z3.Implies(z3.And(*[to_bool(g) for g in guard] + [z3.BoolVal(True)]), fact))
+        # ghost updates of the caller (ghost code lives in the sidecar, never in /repo)
+        upd = (self.contract.ghost_after or {}).get(callee.name)
+        if upd:
+            gst = st.fork()
+            for g in callee.ghost:
+                gst.env["g_" + g] = cst.env[g]
+            gst.heap = st.heap
+            gst.pc = st.pc
+            newvals = {gv: self.evc(src, gst, guard) for gv, src in upd.items()}
+            for gv, val in newvals.items():
+                cur = st.env.get(gv)
+                if isinstance(cur, Ref) and isinstance(val, Ref):
+                    st.heap[cur.base] = st.heap[cur.base].replace(arr=gst.heap[val.base].arr)
+                else:
+                    st.env[gv] = val
         return res if res is not None else PyObj("none")
 
     # ---- statements -------------------------------------------------------------------------------------------------
@@ -805,6 +842,11 @@ class Engine:
                 elif isinstance(n, ast.Call):
                     if isinstance(n.func, ast.Name) and n.func.id in self.registry.by_name:
                         callee = self.registry.by_name[n.func.id]
+                        for gv in (self.contract.ghost_after or {}).get(callee.name, {}):
+                            if isinstance(st.env.get(gv), Ref):
+                                bases.add(gv)
+                            else:
+                                names.add(gv)
                         for m in callee.modifies:
                             k = callee.param_names.index(m)
                             if k < len(n.args) and isinstance(n.args[k], ast.Name):
@@ -938,6 +980,10 @@ class Engine:
         ex = head.fork()
         ex.pc.append(z3.Not(cond(ex)))
         out.append(("normal", ex, None))
+        for hsrc in (getattr(self.contract, "exit_hints", None) or {}).get(k, []):
+            for kind, s2, val in out:
+                if kind == "normal":
+                    s2.pc.append(to_bool(self.evc(hsrc, s2)))
         # cut-point assertions right after the loop (proved on every normal exit, then assumed)
         for aname, asrc in (self.contract.after_loop or {}).get(k, {}).items():
             for kind, s2, val in out:
@@ -1036,6 +1082,13 @@ class Engine:
         for name, src in c.requires.items():
             st.pc.append(to_bool(self.evc(src, st)))
         self.requires_terms = list(st.pc)
+        for gv, src in (c.ghost_vars or {}).items():
+            v = self.evc(src, st)
+            if isinstance(v, Ref):
+                ho = st.heap[v.base]
+                st.env[gv] = self.new_array(st, "ghost_" + gv, ho.elem, ho.ndim, shape=ho.shape, arr=self.sel(st, v))
+            else:
+                st.env[gv] = v
         entry = State(dict(st.env), dict(st.heap), list(st.pc), None)
         st.old = entry
         outcomes = self.run_block(self.fndef.body, st)
